@@ -1982,3 +1982,39 @@ M("C14-prettify-fraction-arm-not-terminated", "C14", F_PD,
 M("C14-benign-nan-text-by-memcpy-with-terminator", "C14", F_PD,
   "    buffer[0] = 'n';\n    buffer[1] = 'a';\n    buffer[2] = 'n';\n    buffer[3] = '\\0';\n", "    memcpy(buffer, \"nan\", 4);\n",
   benign=True)
+
+# ---- R07.15 (S8-C07: multiplicative operators printed without their parentheses)
+F_EX = "src/cppparser/cppExpression.cxx"
+_DEF = """    default:
+      out << "(";
+      _u._op._op1->output(out, indent_level, scope, false);
+      out << " " << (char)_u._op._operator << " ";
+      _u._op._op2->output(out, indent_level, scope, false);
+      out << ")";
+    }
+"""
+M("C07-multiplicative-operators-printed-bare", "C07", F_EX, _DEF, """    default:
+      {
+        const bool parens = (_u._op._operator != '*' &&
+                             _u._op._operator != '/' &&
+                             _u._op._operator != '%');
+        if (parens) out << "(";
+        _u._op._op1->output(out, indent_level, scope, false);
+        out << " " << (char)_u._op._operator << " ";
+        _u._op._op2->output(out, indent_level, scope, false);
+        if (parens) out << ")";
+      }
+    }
+""", expect="R07.15|output|binary_default|parenthesised")
+M("C07-shift-printed-bare", "C07", F_EX,
+  "      out << \"(\";\n      _u._op._op1->output(out, indent_level, scope, false);\n      out << \" >> \";\n      _u._op._op2->output(out, indent_level, scope, false);\n      out << \")\";\n",
+  "      _u._op._op1->output(out, indent_level, scope, false);\n      out << \" >> \";\n      _u._op._op2->output(out, indent_level, scope, false);\n",
+  expect="R07.15|output|binary_RSHIFT|parenthesised")
+M("C07-benign-default-arm-one-chain", "C07", F_EX, _DEF, """    default:
+      out << "( ";
+      _u._op._op1->output(out, indent_level, scope, false);
+      out << " " << (char)_u._op._operator << " ";
+      _u._op._op2->output(out, indent_level, scope, false);
+      out << " )";
+    }
+""", benign=True)
